@@ -246,6 +246,20 @@ def from_groove_splines(chk, rng):
                 b = Profile.from_groove(g, filling=1.0, height=gap + 2 * dmax)
             except Exception as e:
                 return chk.fail('from_groove-valid-rejected', f"Profile.from_groove(SplineGroove {nm}, height={gap + 2 * dmax}) raised {type(e).__name__}: {e}", data)
+            # the shape: the groove contour above, the same contour turned by half a turn below (the symmetry of a two-roll opening), also for lopsided grooves
+            from shapely.affinity import rotate as _rot
+            from shapely.geometry import LineString as _LS
+            cs = a.cross_section
+            if _rot(cs, 180, origin=(0, 0)).symmetric_difference(cs).area > 1e-9 * cs.area:
+                return chk.fail('from_groove-symmetry', f"Profile.from_groove(SplineGroove {nm} {pts}, filling=1, gap={gap}): the cross-section is not invariant under a half "
+                                f"turn about the centre", data)
+            for z in np.linspace(-0.45 * uw, 0.45 * uw, 19):
+                col = cs.intersection(_LS([(z, -10 * uw), (z, 10 * uw)]))
+                top, bot = col.bounds[3], col.bounds[1]
+                wt, wb = gap / 2 + float(g.local_depth(z)), -(gap / 2 + float(g.local_depth(-z)))
+                if abs(top - wt) > 1e-9 * uw or abs(bot - wb) > 1e-9 * uw:
+                    return chk.fail('from_groove-shape', f"Profile.from_groove(SplineGroove {nm} {pts}, filling=1, gap={gap}): at z={z:.6g} the section reaches from {bot:.6g} to "
+                                    f"{top:.6g}, the groove contours (upper: depth(z), lower: depth(-z)) give {wb:.6g} to {wt:.6g}", data)
             ma, mb = measure(a), measure(b)
             if abs(mb['h'] - (gap + 2 * dmax)) > 1e-9 * uw or abs(ma['h'] - (gap + 2 * dmax)) > 1e-9 * uw or not a.cross_section.equals_exact(b.cross_section, 1e-12 * uw):
                 return chk.fail('from_groove-dimensions', f"Profile.from_groove(SplineGroove {nm} {pts}): requested height {gap + 2 * dmax}, got {mb['h']} "
